@@ -3,6 +3,8 @@ import Glom.Lemmas.C17Source
 import Glom.Lemmas.C17Streams
 import Glom.Lemmas.C17Lazy
 import Glom.Lemmas.C17Boltons
+import Glom.Lemmas.C17Mono
+import Glom.Lemmas.C17Ref
 import Glom.Model.C17Env
 /-
   C17 — Iter pipelines equal the itertools composition, stay lazy, never mutate specs.
@@ -103,6 +105,27 @@ theorem c17_twins_are_not_the_sentinel :
       (V.tup [.flt 1]).key == (V.tup [.bool true]).key && !((V.ref 7 (.obj 1)).key == (V.int 1).key)) = true := by
   decide
 
+/-- **SKIP and STOP mean something to `Iter(subspec)` itself and to nothing else** (the reading of
+    "honouring SKIP, STOP").  (1) When the subspec — for `Iter()` the item itself — gives the SKIP object the
+    item is dropped, at the STOP object the stream ends, before the sentinel is looked at.  (2) A `map`
+    function that gives SKIP / STOP yields that object as an ordinary item and the stream goes on (glom:
+    `list(glom([1,2,3], Iter().map(lambda x: SKIP if x == 2 else x))) == [1, SKIP, 3]`).  (3) For `filter` /
+    `takewhile` / `dropwhile` a key that gives SKIP / STOP is a falsy key (boltons' sentinels are falsy):
+    the item is dropped / the stream ends / the dropping ends — because it is falsy, not because it is SKIP. -/
+theorem c17_skip_stop_only_in_subspec (f : Fn) (s : Option V) (x : V) (b : Bool) (h : f x = .ok (.sent b)) (c : Core) :
+    ((Core.init (.base (BaseFn.ofFn f) s)).push x).1 = [] ∧
+    (match ((Core.init (.base (BaseFn.ofFn f) s)).push x).2.2, b with
+      | .go, false => True | .stop, true => True | _, _ => False) ∧
+    (c.kind = .map f → (c.push x).1 = [.sent b] ∧ (match (c.push x).2.2 with | .go => True | _ => False)) ∧
+    (c.kind = .filter f → (c.push x).1 = [] ∧ (match (c.push x).2.2 with | .go => True | _ => False)) ∧
+    (c.kind = .takewhile f → (c.push x).1 = [] ∧ (match (c.push x).2.2 with | .stop => True | _ => False)) := by
+  refine ⟨?_, ?_, ?_, ?_, ?_⟩
+  · cases b <;> simp [Core.push, Core.init, BaseFn.ofFn, h, Except.map, Yield.ofV]
+  · cases b <;> simp [Core.push, Core.init, BaseFn.ofFn, h, Except.map, Yield.ofV]
+  · intro hc; simp [Core.push, hc, h]
+  · intro hc; simp [Core.push, hc, h, V.truthy]
+  · intro hc; simp [Core.push, hc, h, V.truthy]
+
 /-! ### semantics -/
 
 /-- **Trace soundness, every source.**  Whatever a `take k` run observes — for any source,
@@ -149,6 +172,37 @@ theorem c17_semantics (kinds : List Kind) (hw : ∀ k ∈ kinds, k.wf = true) (x
     simp only [List.nil_append] at hd
     rw [det_fin_full, this] at hd
     injection hd with _ h2; cases h2
+
+/-- **What is determined stays determined, and it is a prefix of the composition.**  On every
+    source the outputs determined by the first `n` items are extended (never revised) by those the
+    first `m ≥ n` items determine; and whenever the composition of the list functions evaluates on
+    the whole of a finite source, every one of them is a prefix of its value — the per-prefix traces the
+    checker works with (`det`, built from the stages' step functions) never say anything the list
+    functions do not. -/
+theorem c17_determined_monotone (kinds : List Kind) (src : Src) (n m : Nat) (h : n ≤ m) :
+    (det kinds src n).items <+: (det kinds src m).items ∧
+    ((det kinds src n).term ≠ .more → det kinds src m = det kinds src n) := by
+  have hle := det_mono kinds src h
+  refine ⟨hle.items, fun hne => ?_⟩
+  rcases hle with ⟨h1, _⟩ | h1
+  · exact absurd h1 hne
+  · exact h1.symm
+
+theorem c17_determined_prefix_of_composition (kinds : List Kind) (hw : ∀ k ∈ kinds, k.wf = true) (xs ys : List V)
+    (h : composeE kinds xs = .ok ys) (n : Nat) : (det kinds (.fin xs none) n).items <+: ys :=
+  det_prefix_of_compose kinds hw xs ys h n
+
+/-- **The checkers accept only the composition.**  `checkTake` / `checkAll` compare an observation with
+    `det` (the stages' own step functions folded over the source) — but whenever the composition of the
+    LIST functions evaluates to `ys`, an observation they accept has exactly the first `k` items of `ys`
+    (all of `ys`), and ends as `ys` does.  (The driver evaluates `composeE` as well and compares the
+    implementation with it directly.) -/
+theorem c17_checker_accepts_only_the_composition (kinds : List Kind) (hw : ∀ k ∈ kinds, k.wf = true) (xs ys : List V)
+    (h : composeE kinds xs = .ok ys) (o : TakeObs) :
+    (∀ k, checkTake kinds (.fin xs none) k o = true →
+      o.items = ys.take k ∧ o.fin = (if ys.length ≥ k then .gotK else .exhausted)) ∧
+    (checkAll kinds (.fin xs none) o = true → o.items = ys ∧ o.fin = .exhausted) :=
+  ⟨fun k hc => checkTake_sound kinds hw xs ys k o h hc, fun hc => checkAll_sound kinds hw xs ys o h hc⟩
 
 /-- the same for `take k`: the first `k` items of the composition -/
 theorem c17_semantics_take (kinds : List Kind) (hw : ∀ k ∈ kinds, k.wf = true) (xs ys : List V) (k : Nat)
@@ -217,6 +271,28 @@ theorem c17_ref_is_itertools (g : V → V) (xs : List V) :
       split
       · simp [ih]
       · rfl
+
+/-- **The reference list functions, described without their recursion.**  `slice`: output `i` is the item
+    at `start + i·step` if that is below `stop`; `chunked`: chunk `i` is the items `[i·size, (i+1)·size)`, padded
+    when a fill is given; `windowed`: window `i` is the items `[i, i+size)`; `split` (every separator, no
+    limit): the groups hold exactly the non-separators in order, no group holds a separator, and there is
+    one more group than separators; `unique`: item `i` is kept iff its key is none of the keys before it. -/
+theorem c17_ref_anchors (xs : List V) (i : Nat) :
+    (∀ a stop step, 1 ≤ step → (sliceL a stop step xs)[i]? =
+      if (match stop with | some s => decide (a + i * step < s) | none => true) then xs[a + i * step]? else none) ∧
+    (∀ size fill, 1 ≤ size → (chunkedL size fill xs)[i]? =
+      if i * size < xs.length then some (.list (padTo size fill ((xs.drop (i * size)).take size))) else none) ∧
+    (∀ size, 1 ≤ size → (windowedL size xs)[i]? =
+      if i + size ≤ xs.length then some (.tup ((xs.drop i).take size)) else none) ∧
+    (∀ p : V → Bool, (splitL p false true none xs).flatten = xs.filter (fun x => !p x) ∧
+      (splitL p false true none xs).length = xs.countP p + 1 ∧
+      ∀ g ∈ splitL p false true none xs, ∀ x ∈ g, p x = false) ∧
+    (∀ ks : List V, uniqueAux [] (xs.zip ks) =
+      ((xs.zip ks).zipIdx).filterMap (fun p =>
+        if (((xs.zip ks).take p.2).map (·.2)).contains p.1.2 then none else some p.1.1)) :=
+  ⟨fun a stop step h => sliceL_getElem? a stop step h xs i, fun size fill h => chunkedL_getElem? size fill h xs i,
+   fun size h => windowedL_getElem? size h xs i, fun p => splitL_plain_spec p xs true,
+   fun ks => by simpa using uniqueAux_spec (xs.zip ks) [] 0⟩
 
 /-- `limit(n)` / `slice(a, None)` are `take` / `drop`; `flatten` is `join` -/
 theorem c17_ref_slices (n a : Nat) (xs : List V) (ls : List (List V)) :
@@ -332,6 +408,77 @@ theorem c17_first_terminates (kinds : List Kind) (hw : ∀ k ∈ kinds, k.wf = t
       FirstSpec kinds src key (runFirst kinds src fuel key).1 (runFirst kinds src fuel key).2 := by
   obtain ⟨F, hF⟩ := runFirst_terminates src N kinds key hw hpa href
   exact ⟨F, fun fuel hf => runFirst_spec src fuel kinds key (hF fuel hf)⟩
+
+/-! ### the builder methods at the edges of their arguments -/
+
+/-- **What the builder methods make of the values a caller can write, and when a bad one is rejected**
+    (`Model/C17Args.lean`; every row is run against glom by the `args` cases).  `slice` validates when it is
+    called: `ValueError` for a negative / float / string bound and for a step below 1, `TypeError` for no or four
+    arguments.  `limit(-1)` builds, and `islice` raises `ValueError` inside `glomit`.  `chunked(0)` /
+    `chunked(-1)` raise `ValueError` at the first `next()` (nothing pulled), `chunked(1.5)` is `chunked(1)`,
+    (`chunked('2')` is `chunked(2)`: `Arg.toInt`,) `chunked(None)` a `TypeError` at the first `next()`.  `windowed(0)` is the empty
+    stream, `windowed(-1)` / `windowed(1.5)` raise `ValueError` / `TypeError` inside `glomit`.  `split(sep, 0)` hands
+    out `[<the upstream iterator>]`, a negative `maxsplit` never splits, `split(sep, 1.5)` is `split(sep, 1)`. -/
+theorem c17_builder_arguments :
+    (match sliceMethod [.int (-1)], sliceMethod [.flt 1 true], sliceMethod [.str "a"], sliceMethod [.int 0, .int 5, .int 0],
+        sliceMethod [], sliceMethod [.int 1, .int 2, .int 3, .int 4] with
+      | .error "ValueError", .error "ValueError", .error "ValueError", .error "ValueError", .error "TypeError",
+        .error "TypeError" => true
+      | _, _, _, _, _, _ => false) = true ∧
+    (match sliceMethod [.none], sliceMethod [.bool true], sliceMethod [.int 1, .none, .int 2] with
+      | .ok (.slice 0 none 1), .ok (.slice 0 (some 1) 1), .ok (.slice 1 none 2) => true
+      | _, _, _ => false) = true ∧
+    (match limitMethod (.int (-1)), limitMethod (.flt 2 true), limitMethod (.str "a"), limitMethod (.int 3), limitMethod .none with
+      | .raises "ValueError" true, .raises "ValueError" true, .raises "ValueError" true, .slice 0 (some 3) 1, .slice 0 none 1 => true
+      | _, _, _, _, _ => false) = true ∧
+    (match chunkedMethod (.int 0) none, chunkedMethod (.int (-1)) none, chunkedMethod (.flt 1 false) none,
+        chunkedMethod (.flt 0 false) none, chunkedMethod .none none with
+      | .raises "ValueError" false, .raises "ValueError" false, .chunked 1 none, .raises "ValueError" false,
+        .raises "TypeError" false => true
+      | _, _, _, _, _ => false) = true ∧
+    (match windowedMethod (.int 0), windowedMethod (.int (-1)), windowedMethod (.flt 1 false), windowedMethod (.int 3),
+        windowedMethod (.bool true) with
+      | .slice 0 (some 0) 1, .raises "ValueError" true, .raises "TypeError" true, .windowed 3, .windowed 1 => true
+      | _, _, _, _, _ => false) = true ∧
+    (match splitMethod .none (.int 0), splitMethod .none (.int (-1)), splitMethod .none (.flt 1 false), splitMethod .none .none with
+      | .wrapIter, .split .none (some 0), .split .none (some 1), .split .none none => true
+      | _, _, _, _ => false) = true := by
+  decide
+
+/-- **A callback that raises inside `glomit`** (`limit(-1)`, `windowed(-1)`): `glom()` itself raises that exception,
+    nothing is yielded, and the source has been pulled exactly as far as the stages chained BEFORE the bad one
+    pulled while they were built (a `windowed(size)` before it: `size - 1` items) — the observation of the model passes
+    the checker `checkTakeG`, which says just that. -/
+theorem c17_model_checks_take_glomit (kinds : List Kind) (xs : List V) (tail : Option Err) (fuel k : Nat)
+    (h : (runTakeG kinds (.fin xs tail) fuel k).fin ≠ .oof) :
+    let out := runTakeG kinds (.fin xs tail) fuel k
+    checkTakeG kinds (.fin xs tail) k ⟨out.items, out.fin, out.pulls⟩ = true :=
+  checkTakeG_model kinds xs tail fuel k h
+
+/-- **What a key is for each stage.**  The result of a key is read for its truth value; for a result WITHOUT one
+    (`bool()` raises): `filter` drops the item silently (its `Check(key, default=SKIP)` turns the failure into
+    SKIP), `takewhile` / `dropwhile` / `first` / a callable `split` separator raise.  `filter` also drops an item that
+    IS the SKIP object whatever its key says (a passing `Check` returns the item).  A `Check` instance given to
+    `filter` is the check itself: a failing one keeps the item unless its default is SKIP, or raises `CheckError`. -/
+theorem c17_keys_per_stage (f validate : Fn) (x y : V) (h : f x = .ok y) (hy : y.truthyE = .error "ValueError") :
+    Fn.asFilterKey f x = .ok (.bool false) ∧ Fn.asPredicate f x = .error "ValueError" ∧
+    (∀ g : Fn, Fn.asFilterKey g (.sent false) = .ok (.bool false) ∨ ∃ e, Fn.asFilterKey g (.sent false) = .error e) ∧
+    (validate x = .ok (.bool false) →
+      Fn.ofCheck validate .keep x = .ok (.bool true) ∧ Fn.ofCheck validate .skip x = .ok (.bool false) ∧
+      Fn.ofCheck validate .raises x = .error "CheckError") ∧
+    (validate x = .ok (.int 0) → x ≠ .sent false → Fn.ofCheck validate .raises x = .ok (.bool true)) := by
+  refine ⟨by simp [Fn.asFilterKey, h, hy], by simp [Fn.asPredicate, h, hy], ?_, ?_, ?_⟩
+  · intro g
+    simp only [Fn.asFilterKey]
+    cases hg : g (.sent false) with
+    | error e => right; exact ⟨e, rfl⟩
+    | ok z => left; cases hz : z.truthyE with
+      | error e => simp [hz]
+      | ok b => cases b <;> simp [hz]
+  · intro hv; simp [Fn.ofCheck, hv]
+  · intro hv hx
+    simp only [Fn.ofCheck, hv]
+    cases x <;> first | rfl | (rename_i b; cases b <;> first | rfl | exact absurd rfl hx)
 
 /-! ### laziness in closed form -/
 
@@ -480,20 +627,21 @@ theorem c17_boltons_stage_laws (k : Kind) (hw : k.wf = true) (xs ys : List V) (h
     the pulled prefix.  (1) Seen from where it started, the run *is* the run over the suffix
     `src.drop p` — same items, same end, same number of pulls; (2) the position never moves
     backwards; (3) what `next()` finds on the source afterwards is what it finds on the
-    fresh suffix `src.drop pulls`: nothing lost, nothing pushed back, not closed; (4) every
-    later consumer of the same object — any stage list, any `k'` — behaves as on that suffix. -/
+    fresh suffix `src.drop pulls`: nothing lost, nothing pushed back; (4) every later consumer
+    of the same object — any stage list, any `k'` — behaves as on that suffix.  (That the source is
+    not *closed* is not a theorem: the model has no `close()` at all — the source is touched through
+    `Src.next` only — and what ties that to the code is the fact `iterateOnlyNexts` plus the
+    `closed` flag observed on instrumented sources; `checkSource_after` in `Lemmas/C17Source.lean`
+    is the definitional remark that the model's own source observation passes `checkSource`.) -/
 theorem c17_source_remainder (kinds : List Kind) (src : Src) (fuel k p r : Nat) :
     let out := runTakeFrom kinds src fuel k p
     out = (runTake kinds (src.drop p) fuel k).shift p ∧
     p ≤ out.pulls ∧
-    src.after out.pulls r = (src.drop out.pulls).after 0 r ∧ (src.after out.pulls r).closed = false ∧
+    src.after out.pulls r = (src.drop out.pulls).after 0 r ∧
     ∀ (kinds' : List Kind) (fuel' k' : Nat),
       runTakeFrom kinds' src fuel' k' out.pulls = (runTake kinds' (src.drop out.pulls) fuel' k').shift out.pulls := by
-  refine ⟨runTakeFrom_drop kinds src fuel k p, ?_, after_drop src _ r, ?_, fun kinds' fuel' k' => runTakeFrom_drop kinds' src fuel' k' _⟩
-  · rw [runTakeFrom_drop]; exact Nat.le_add_right _ _
-  · cases src with
-    | fin xs tail => cases tail <;> rfl
-    | inf f => rfl
+  refine ⟨runTakeFrom_drop kinds src fuel k p, ?_, after_drop src _ r, fun kinds' fuel' k' => runTakeFrom_drop kinds' src fuel' k' _⟩
+  rw [runTakeFrom_drop]; exact Nat.le_add_right _ _
 
 /-- on a finite source, in plain list terms: after the run `next()` yields `xs.drop pulls` -/
 theorem c17_source_remainder_fin (kinds : List Kind) (xs : List V) (tail : Option Err) (fuel k r : Nat) :
@@ -650,15 +798,6 @@ theorem c17_model_checks_first (kinds : List Kind) (xs : List V) (tail : Option 
     checkFirst kinds (.fin xs tail) key (firstObsOf out.1) out.2 = true :=
   checkFirst_of_spec kinds xs tail key _ _ (runFirst_spec _ fuel kinds key h)
 
-/-- the source observation of the model passes the source check -/
-theorem c17_model_checks_source (src : Src) (pulls r : Nat) :
-    checkSource src pulls r (src.after pulls r) = true := by
-  have hc : (src.after pulls r).closed = false := by
-    cases src with
-    | fin xs tail => cases tail <;> rfl
-    | inf f => rfl
-  simp [checkSource, hc]
-
 /-- a pipeline started on a used source (a second `glom` call, another value of the same dict
     spec) passes the `take k` check against the composition over the *remaining* items -/
 theorem c17_model_checks_take_from (kinds : List Kind) (xs : List V) (tail : Option Err) (fuel k p : Nat)
@@ -718,13 +857,40 @@ theorem c17_model_checks_streams (own : Nat → Nat) (hinj : ∀ a b, own a = ow
   checkStreams_model own hinj srcsFin fuel sched World.empty (fun _ => none) World.empty_wf
     (fun _ _ h => by simp [World.empty] at h) hs (streamInv_empty own srcsFin fuel) hfuel
 
-/-- builder purity in the checker's form: a model run of the prefix spec before and after
-    deriving from it, and of the derived spec against the freshly built one, is the same run -/
-theorem c17_model_checks_reuse (o o' : TakeObs) : checkReuse true o o o' o' = true := by
+/-- **Builder purity in the checker's form** — the scenario the harness runs, on the heap model:
+    a prefix spec `ip` (any well-formed heap, any spec `it`), a first derivation `ip.E1…` that is
+    thrown away, a second one `ip.E2…` from the SAME object.  Afterwards (1) the object `ip` is
+    still `it`, so a run of it — any source, any `k`, any fuel — is the run before; (2) the derived
+    object is `it` with `E2` chained, whose stages are `it`'s followed by `E2`'s (the sentinel is
+    kept), i.e. the spec built afresh; so the model's four observations pass `checkReuse`. -/
+theorem c17_model_checks_reuse (h : BHeap) (hw : h.wf) (ip : Nat) (it : Iter) (hv : h.view ip = some it)
+    (e1 e2 : List Entry) (src : Src) (fuel k : Nat) :
+    let h2 := (h.chain true ip e1).1
+    let r3 := h2.chain true ip e2
+    let obs := fun (x : Iter) => (⟨(runTake x.kinds src fuel k).items, (runTake x.kinds src fuel k).fin,
+      (runTake x.kinds src fuel k).pulls⟩ : TakeObs)
+    ∃ pAfter d2, r3.1.view ip = some pAfter ∧ r3.1.view r3.2 = some d2 ∧
+      pAfter = it ∧ d2.kinds = it.kinds ++ e2.map (·.kind) ∧
+      checkReuse true (obs it) (obs pAfter) (obs d2) (obs (e2.foldl (Iter.addOp true) it)) = true := by
+  intro h2 r3 obs
+  have hip : ip < h.iters.length := by
+    simp only [BHeap.view] at hv
+    cases hs : h.iters[ip]? with
+    | none => simp [hs] at hv
+    | some o => exact (List.getElem?_eq_some_iff.mp hs).1
+  obtain ⟨hw2, _, hle2, hold2⟩ := BHeap.chain_spec true e1 h ip it hw hv
+  have hv2 : h2.view ip = some it := by rw [hold2 ip hip]; exact hv
+  obtain ⟨_, hnew3, _, hold3⟩ := BHeap.chain_spec true e2 h2 ip it hw2 hv2
+  have hkinds : ∀ (es : List Entry) (x : Iter), (es.foldl (Iter.addOp true) x).kinds = x.kinds ++ es.map (·.kind) := by
+    intro es
+    induction es with
+    | nil => intro x; simp
+    | cons e es ih => intro x; simp [ih, c17_chaining_order]
   have hr : ∀ t : TakeObs, (t == t) = true := fun t => by
     show (t.items == t.items && t.fin == t.fin && t.pulls == t.pulls) = true
     simp
-  simp [checkReuse, hr]
+  refine ⟨it, e2.foldl (Iter.addOp true) it, ?_, hnew3, rfl, hkinds e2 it, by simp [checkReuse, hr]⟩
+  rw [hold3 ip (Nat.lt_of_lt_of_le hip hle2)]; exact hv2
 
 /-! ### non-vacuity: concrete inputs meet every hypothesis; counter-examples without them -/
 
@@ -873,7 +1039,53 @@ theorem c17_shared_state_counterexample :
     -- one stream at a time the two designs agree
     ((w1.run srcs 30 [.next 0, .next 0, .next 0, .next 0]).2.map (outInt ·.2)) = [some 1, some 2, some 3, none] := by
   decide
--- a heap with a re-used prefix spec (hypotheses of `c17_builder_pure`)
-example : (BHeap.mk [] []).wf := by intro i o h; simp at h
+-- a heap with a re-used prefix spec (hypotheses of `c17_builder_pure` / `c17_model_checks_reuse`): `Iter(sentinel=0)` at
+-- address 0, well-formed, and the view of object 0 exists
+private def heap1 : BHeap := ((BHeap.mk [] []).newIter idBase (some (.int 0))).1
+example : heap1.wf := BHeap.newIter_wf _ (by intro i o h; simp at h) _ _
+example : (match heap1.view 0 with | some it => it.stack.isEmpty && it.kinds.length == 1 | none => false) = true := by decide
+-- … after `p.map(inc)` and `p.chunked(2)` from the same object, object 0 is what it was and object 2 has two stages
+example : (match ((heap1.chain true 0 [⟨"map", .map inc⟩]).1.chain true 0 [⟨"chunked", .chunked 2 none⟩]) with
+    | (h, i) => i == 2 && (match h.view 0, h.view 2 with
+      | some p, some d => p.stack.isEmpty && d.kinds.length == 2
+      | _, _ => false)) = true := by decide
+-- `c17_invoke_pure`: an Invoke heap with one instance (`Invoke(f)`), well-formed, viewed
+private def iheap1 : IHeap := ⟨[[]], [([], 0)]⟩
+example : iheap1.wf := by
+  intro i o h
+  cases i with
+  | zero => simp [iheap1] at h; subst h; simp [iheap1]
+  | succ i => simp [iheap1] at h
+example : (match iheap1.view 0 with | some inv => inv.args.isEmpty | none => false) = true := by decide
+-- `c17_first_terminates`: `href` holds for `first(odd)` over the naturals at N = 2 (item `1` is found), and `hpa` trivially
+example : (match firstRef odd (det [.base idBase none] nat 2).items (det [.base idBase none] nat 2).term 0 with
+    | .found (.int 1) 2 => true | _ => false) = true := by decide
+-- `c17_stream_isolation_general`: two worlds in which stream 1 is the same thing — the world after `open 0, open 1` and
+-- the world after `open 1` alone: same view of stream 1, same position of its source
+example : (match ((World.empty.run [.fin srcA none, .fin srcB none] 30 [.open 0 uniqKinds 0, .open 1 uniqKinds 1]).1.view 1),
+      ((World.empty.run [.fin srcA none, .fin srcB none] 30 [.open 1 uniqKinds 1]).1.view 1) with
+    | some (s1, p1, d1, i1), some (s2, p2, d2, i2) => s1.length == s2.length && p1 == p2 && d1 == d2 && i1 == i2
+    | _, _ => false) = true := by decide
+-- `c17_model_checks_take_glomit`: `Iter().windowed(2).limit(-1)`: glom() raises ValueError after ONE item was pulled
+-- (the window's priming), `Iter().limit(-1).windowed(2)`: after none; `chunked(0)` raises at the first next(), nothing pulled
+example : (match runTakeG [.base idBase none, .windowed 2, limitMethod (.int (-1))] nat 30 3 with
+    | ⟨[], .raised "ValueError", 1⟩ => true | _ => false) = true := by decide
+example : (match runTakeG [.base idBase none, limitMethod (.int (-1)), .windowed 2] nat 30 3 with
+    | ⟨[], .raised "ValueError", 0⟩ => true | _ => false) = true := by decide
+example : (match runTakeG [.base idBase none, chunkedMethod (.int 0) none] nat 30 3 with
+    | ⟨[], .raised "ValueError", 0⟩ => true | _ => false) = true := by decide
+-- `split(sep, 0)`: one item, a list holding the upstream iterator; nothing pulled
+example : (match runTakeG [.base idBase none, splitMethod .none (.int 0)] nat 30 3 with
+    | ⟨[.list [.gen]], .exhausted, 0⟩ => true | _ => false) = true := by decide
+-- `c17_checker_accepts_only_the_composition`: the hypothesis is met by `exKinds` on nine items, and an observation with
+-- a wrong item is rejected by `checkTake`
+example : checkTake exKinds (.fin [.int 0, .int 1, .int 2, .int 3, .int 4, .int 5, .int 6, .int 7, .int 8] none) 1
+    ⟨[.tup [.list [.int 1, .int 3], .list [.int 5, .int 9]]], .gotK, 7⟩ = false := by decide
+-- `c17_skip_stop_only_in_subspec`: `Iter().map(skip2)` on `1 2 3` yields `1 SKIP 3`; `Iter(skip2)` yields `1 3`
+private def skip2 : Fn := fun x => match x with | .int 2 => .ok (.sent false) | _ => .ok x
+example : ((runAll [.base idBase none, .map skip2] (.fin [.int 1, .int 2, .int 3] none) 30).items
+    == [.int 1, .sent false, .int 3]) = true ∧
+    ((runAll [.base (BaseFn.ofFn skip2) none] (.fin [.int 1, .int 2, .int 3] none) 30).items == [.int 1, .int 3]) = true := by
+  decide
 
 end Glom.Props.C17
